@@ -7,6 +7,7 @@ package main
 
 import (
 	"bufio"
+	"encoding/json"
 	"fmt"
 	"os"
 	"strconv"
@@ -19,7 +20,10 @@ type Ctx struct {
 	out      *bufio.Writer
 	Count    int
 	TagCount map[string]int
+	Stats    map[string]int // measured quantities beyond the number of cases (faults injected, bytes, ...)
 }
+
+func (c *Ctx) Stat(key string, n int) { c.Stats[key] += n }
 
 func (c *Ctx) Thorough() bool { return c.Tier == "thorough" }
 
@@ -49,7 +53,7 @@ func main() {
 		os.Exit(2)
 	}
 	name := os.Args[1]
-	ctx := &Ctx{Tier: "quick", Seed: 1, TagCount: map[string]int{}}
+	ctx := &Ctx{Tier: "quick", Seed: 1, TagCount: map[string]int{}, Stats: map[string]int{}}
 	if s := os.Getenv("VERIF_SEED"); s != "" {
 		if v, err := strconv.ParseUint(s, 10, 64); err == nil {
 			ctx.Seed = v
@@ -90,4 +94,8 @@ func main() {
 		return
 	}
 	e.Gen(ctx)
+	if len(ctx.Stats) > 0 {
+		js, _ := json.Marshal(ctx.Stats)
+		fmt.Fprintln(os.Stderr, "STATS", string(js))
+	}
 }
